@@ -6,6 +6,7 @@ import arith_catalogue as AC
 from arith_catalogue import V, ev
 
 CAT = AC.load()
+AGUARD = 64            # octets behind every operand buffer (harness-owned, must stay untouched)
 GUARD = 768            # octets behind the exactly-deep scratch area, owned by the harness, must stay untouched
 POISON = 0xEE
 LIMIT = {'quick': 45000, 'thorough': 120000}
@@ -89,6 +90,7 @@ class Cell:
         f.argtypes = [ctypes.c_uint64] * len(ent.args)
         self.f = f
         self.bufs = {}          # arg name -> (Buf, nbytes)
+        self.guarded = []
         rep = {}
         for g in alias_groups(alias):
             for x in g:
@@ -99,7 +101,8 @@ class Cell:
                 nb = ev(a.length, sh, W) * L.wbytes
                 r = rep.get(a.name, a.name)
                 if r not in self.bufs:
-                    self.bufs[r] = (self.A.buf(nb, POISON), nb)
+                    self.bufs[r] = (self.A.buf(nb + AGUARD, 0xA5), nb)
+                    self.guarded.append((r, self.bufs[r][0].addr + nb))
                 self.bufs[a.name] = self.bufs[r]
         self.stack = None; self.deep = 0
         self.argv = []
@@ -126,6 +129,7 @@ class Cell:
         self.consts = [a.name for a in ent.args if a.kind == 'in' and all(self.bufs[a.name][0] is not self.bufs[o][0] for o in self.outs)]
         self.pure_out = [a.name for a in ent.args if a.kind == 'out' and all(self.bufs[a.name][0] is not self.bufs[i][0] for i, _ in self.ins)]
         self.guard = b'\xA5' * GUARD
+        self.aguard = b'\xA5' * AGUARD
 
     def close(self):
         self.A.__exit__()
@@ -166,6 +170,10 @@ class Cell:
                 k -= 1
             bad.append(('stack-overrun', 'wrote at least %d octets beyond the %d octets of its documented scratch depth' % (k, self.deep)))
             ctypes.memset(self.stack.addr + self.deep, 0xA5, GUARD)
+        for name, ga in self.guarded:
+            if sat(ga, AGUARD) != self.aguard:
+                bad.append(('buffer-overrun', 'wrote beyond the documented length (%d octets) of buffer %s' % (self.bufs[name][1], name)))
+                ctypes.memset(ga, 0xA5, AGUARD)
         for name in self.consts:
             b, nb = self.bufs[name]
             if nb and int.from_bytes(sat(b.addr, nb), 'little') != v[name]:
@@ -193,7 +201,7 @@ def enc_inputs(ent, v):
 
 def describe(ent, ed, sh, alias, v):
     return '%s%s(%s)%s  %s' % (ent.name, ed, ', '.join('%s=%d' % kv for kv in sh.items()), ' alias ' + alias if alias else '',
-                               ' '.join('%s=%x' % (k, v[k]) for k in ent.dom if k != 'pw'))
+                               ' '.join('%s=%x' % (k, v[k]) for k in list(ent.dom) + (['pos', 'width'] if 'pw' in ent.dom else []) if k != 'pw'))
 
 def cls_of(ent, v, c):
     f = getattr(ent, 'cls', None)
